@@ -84,6 +84,10 @@ def _descending(kinds, sources):
 
 # ambiguous repetitions: several derivations per end; which one is returned must not depend on what is cached
 PRESETS = [
+    # exclusion by a CASE-SENSITIVE rule, then the same texts in other letter cases: a verdict remembered under a folded text would leak
+    ([("r0", ("rep", 1, None, ("range", 0x41, 0x7A)), 1), ("r1", ("alt", [("lit", "ab", True), ("lit", "Ba", True)], False), None)], ["abAB", "ABab", "Baba", "bABA"]),
+    ([("r0", ("cat", [("ref", 1), ("rep", 0, None, ("lit", "-", False))]), None), ("r1", ("rep", 1, 3, ("alt", [("lit", "k", False), ("lit", "s", False)], False)), 2),
+      ("r2", ("alt", [("lit", "ks", True), ("lit", "S", True)], False), None)], ["ks-", "KS-", "Ks-", "s-", "S-"]),
     ([("r0", ("rep", 0, None, ("alt", [("lit", "a", False), ("lit", "aa", False)], False)), None)], ["aaaa", "aaaaa"]),
     ([("r0", ("cat", [("ref", 1), ("rep", 0, None, ("lit", "a", False))]), None),
       ("r1", ("rep", 0, None, ("alt", [("lit", "aa", False), ("lit", "a", False)], False)), None)], ["aaa", "aaaa"]),
